@@ -157,6 +157,27 @@ func main() {
 			fmt.Fprintln(os.Stderr, "INFRASTRUCTURE ERROR:", err)
 			os.Exit(2)
 		}
+		if a == isaspec.GCN3 {
+			// The GCN3 decoder / ALU also implement the GFX9 addressing of FLAT
+			// encodings (signed 13-bit immediate offset, SADDR scalar base: amd/emu/
+			// alu_flat.go flatAddrWithScalar). gfx803 cannot encode them, so the
+			// gfx90a words of global_* (SADDR and OFF mode) and of flat_* with an
+			// immediate offset are run on the GCN3 pair as well, held to the FLAT
+			// field semantics of docs/cdna3_insts.pdf table 100. s[0:1] is left out:
+			// the GCN3 decoder documents SADDR = 0 as "off".
+			g9, err := isaspec.Forms(isaspec.CDNA3)
+			if err != nil {
+				fmt.Fprintln(os.Stderr, "INFRASTRUCTURE ERROR:", err)
+				os.Exit(2)
+			}
+			for _, f := range g9 {
+				if (strings.HasPrefix(f.Text, "global_") && !strings.Contains(f.Text, "s[0:1]")) ||
+					(strings.HasPrefix(f.Text, "flat_") && strings.Contains(f.Text, " offset:")) {
+					f.Group = "gfx9-encoding:" + f.Group
+					forms = append(forms, f)
+				}
+			}
+		}
 		ar := &archRun{arch: a, forms: forms, dec: insts.NewDisassembler()}
 		ar.dec.IsCDNA3 = a == isaspec.CDNA3
 		arch := a
